@@ -176,6 +176,7 @@ struct Dir {
     uint32_t retry_tag = 0, retry_len = 0;
     std::string pending;
     size_t moved = 0;
+    bool tail_at_close = false; // the sender closed while part of this was still undelivered
 };
 
 struct Conn {
@@ -292,7 +293,7 @@ public:
                     // the closing side lets its own socket finish first (what it sent is then in the relay's hands)
                     for (int q = 0; q < 2000; q++) { if (x_finish(e) == 0) break; if (errno != EAGAIN) break; usleep(200); }
                     c.log("c%d %s closes%s", (int)(&cn - &cs[0]), from_a ? "A" : "B", pending ? " with data of its own still in flight" : "");
-                    if (pending) { close_in_flight = true; c.cls("close-with-data-in-flight"); }
+                    if (pending) { close_in_flight = true; out.tail_at_close = true; c.cls("close-with-data-in-flight"); }
                     x_close(e);
                     (from_a ? cn.a_closed : cn.b_closed) = true;
                 }
@@ -534,8 +535,9 @@ public:
                 VF_CHECK(peer_closed, "C20: %s's xcm_receive returned %d %s although the other side has not closed; relay process %s", at_a ? "A" : "B", rc, rc < 0 ? errname(er) : "",
                          cur && cur->alive() ? "alive (it dropped this connection)" : "DEAD");
                 bool complete = is_bs ? in.off == in.bytes.size() : in.delivered == in.msgs.size();
-                VF_CHECK(complete, "C20: %s sees the connection %s before everything the other side had successfully sent arrived (%zu of %zu %s delivered)", at_a ? "A" : "B",
-                         rc == 0 ? "closed" : errname(er), is_bs ? in.off : in.delivered, is_bs ? in.bytes.size() : in.msgs.size(), is_bs ? "bytes" : "messages");
+                VF_CHECK(complete, "C20: %s sees the connection %s before everything the other side had successfully sent arrived (%zu of %zu %s delivered)%s", at_a ? "A" : "B",
+                         rc == 0 ? "closed" : errname(er), is_bs ? in.off : in.delivered, is_bs ? in.bytes.size() : in.msgs.size(), is_bs ? "bytes" : "messages",
+                         in.tail_at_close ? " [the other side closed while that data was still undelivered]" : "");
                 (at_a ? cn.a_saw_close : cn.b_saw_close) = true;
                 x_close(e);
                 (at_a ? cn.a_closed : cn.b_closed) = true;
